@@ -156,6 +156,44 @@ fn fresh(events: &Events) -> (Arc<Shared>, Arc<log4rs::Logger>, log4rs::Handle) 
     (sh, logger, h)
 }
 
+/// A swap while a logging thread is parked right after the snapshot load inside `Logger::enabled`.  `Logger::log`
+/// does not call `enabled`: the park is not reached and the scenario is an ordinary log call.  Should an
+/// implementation consult `enabled` first and load again for the fan-out, the swap lands between its two loads - the
+/// record is then judged by one configuration and delivered by another, which Reconfig.tla does not allow.
+fn scenario_parked_in_enabled(events: &Events) {
+    let (sh, logger, h) = fresh(events);
+    let gate = Arc::new(Gate::default());
+    let g2 = gate.clone();
+    log4rs::verif::set_global_callback(Some(Arc::new(move |name: &str, _a: u64| {
+        if name == "enabled.loaded" && PARK_AT_LOADED.with(|p| p.replace(false)) {
+            g2.armed.store(true, Ordering::SeqCst);
+            g2.pass();
+        }
+        Ok(())
+    })));
+    let (sh2, logger2) = (sh.clone(), logger.clone());
+    let th = std::thread::spawn(move || {
+        PARK_AT_LOADED.with(|p| p.set(true));
+        log_one(&sh2, &logger2, 1);
+        PARK_AT_LOADED.with(|p| p.set(false));
+    });
+    // wait until the thread is parked or done
+    loop {
+        if th.is_finished() {
+            break;
+        }
+        if gate.state.lock().unwrap().0 {
+            set_config(&sh, &h); // generation 1: rejects the probe record
+            gate.release();
+            break;
+        }
+        std::thread::sleep(std::time::Duration::from_micros(200));
+    }
+    th.join().unwrap();
+    log4rs::verif::set_global_callback(None);
+    log_one(&sh, &logger, 2);
+}
+
 /// free-running threads with a seeded amplifier at the sync points
 fn scenario_free(rng: &mut Rng, events: &Events, long: bool) {
     let (sh, logger, h) = fresh(events);
@@ -264,7 +302,8 @@ pub fn main(args: &[String]) {
         scenarios += 2;
     }
     scenario_parked_after_load(&events);
-    scenarios += 1;
+    scenario_parked_in_enabled(&events);
+    scenarios += 2;
     for k in 0..n {
         scenario_free(&mut rng, &events, k == 0);
         scenarios += 1;
